@@ -122,4 +122,198 @@ theorem lit_prefix {body : Bytes} (hb : Lit body) :
     rw [scan_cons, step_hex3 _ _ _ _ _ _ h4]
     exact ih _ _ _ _ _ _ ht6
 
+/-! ### all prefixes incomplete -/
+
+/-- no prefix of `data` (including `data` itself) completes a JSON text when scanned from `s` -/
+def AllPre (s : St) (data : Bytes) : Prop := ∀ p, p <+: data → (scan s p).complete = false
+
+theorem allPre_nil {s : St} (h : s.complete = false) : AllPre s [] := by
+  intro p hp
+  have : p = [] := by simpa using hp
+  subst this; exact h
+
+theorem allPre_cons {s : St} {c : UInt8} {r : Bytes} (h : s.complete = false) (hr : AllPre (step s c) r) :
+    AllPre s (c :: r) := by
+  intro p hp
+  rcases List.prefix_cons_iff.mp hp with rfl | ⟨t, rfl, ht⟩
+  · exact h
+  · exact hr t ht
+
+theorem prefix_append_cases {p a b : Bytes} (h : p <+: a ++ b) : p <+: a ∨ ∃ q, p = a ++ q ∧ q <+: b := by
+  induction a generalizing p with
+  | nil => exact .inr ⟨p, rfl, h⟩
+  | cons x a ih =>
+    rcases List.prefix_cons_iff.mp h with rfl | ⟨t, rfl, ht⟩
+    · exact .inl (List.nil_prefix)
+    · rcases ih ht with h1 | ⟨q, rfl, hq⟩
+      · exact .inl (List.prefix_cons_iff.mpr (.inr ⟨t, rfl, h1⟩))
+      · exact .inr ⟨q, rfl, hq⟩
+
+theorem allPre_append {s : St} {a b : Bytes} (ha : AllPre s a) (hb : AllPre (scan s a) b) :
+    AllPre s (a ++ b) := by
+  intro p hp
+  rcases prefix_append_cases hp with h | ⟨q, rfl, hq⟩
+  · exact ha p h
+  · rw [scan_append]; exact hb q hq
+
+theorem allPre_lit {body : Bytes} (hb : Lit body) (st : List PS) (raw key : Bytes) (f : Fields) (te : Bool) :
+    AllPre ⟨.inStr, st, false, raw, key, f, te⟩ body :=
+  fun p hp => inString_incomplete (lit_prefix hb p st raw key f te hp)
+
+/-! ### one member `"name":"value"` of the top-level object -/
+
+theorem step_openKey {lx : Lex} (hlx : lx = .beginString ∨ lx = .beginStringOrEmpty) (raw key : Bytes)
+    (f : Fields) (te : Bool) :
+    step ⟨lx, [.objKey], false, raw, key, f, te⟩ 0x22 = ⟨.inStr, [.objKey], false, [], key, f, te⟩ := by
+  rcases hlx with rfl | rfl <;> simp [step, isSpace]
+
+theorem incomplete_openKey {lx : Lex} (hlx : lx = .beginString ∨ lx = .beginStringOrEmpty) (raw key : Bytes)
+    (f : Fields) (te : Bool) : (St.mk lx [.objKey] false raw key f te).complete = false := by
+  rcases hlx with rfl | rfl <;> simp [St.complete, step, isSpace]
+
+theorem step_closeKey (raw key : Bytes) (f : Fields) (te : Bool) :
+    step ⟨.inStr, [.objKey], false, raw, key, f, te⟩ 0x22 = ⟨.endValue, [.objKey], false, raw, unquote raw, f, te⟩ := by
+  simp [step, St.closeString]
+
+theorem step_colon (raw key : Bytes) (f : Fields) (te : Bool) :
+    step ⟨.endValue, [.objKey], false, raw, key, f, te⟩ 0x3A = ⟨.beginValue, [.objVal], false, raw, key, f, te⟩ := by
+  simp [step, St.endValue, isSpace]
+
+theorem step_openVal (raw key : Bytes) (f : Fields) (te : Bool) :
+    step ⟨.beginValue, [.objVal], false, raw, key, f, te⟩ 0x22 = ⟨.inStr, [.objVal], false, [], key, f, te⟩ := by
+  simp [step, St.beginValue, St.noteValueStart, isSpace]
+
+theorem step_closeVal (raw key : Bytes) (f : Fields) (te : Bool) :
+    step ⟨.inStr, [.objVal], false, raw, key, f, te⟩ 0x22 =
+      ⟨.endValue, [.objVal], false, raw, key, f.set key (unquote raw), te⟩ := by
+  simp [step, St.closeString]
+
+theorem step_comma (raw key : Bytes) (f : Fields) (te : Bool) :
+    step ⟨.endValue, [.objVal], false, raw, key, f, te⟩ 0x2C = ⟨.beginString, [.objKey], false, raw, key, f, te⟩ := by
+  simp [step, St.endValue, isSpace]
+
+theorem step_closeObj (raw key : Bytes) (f : Fields) (te : Bool) :
+    step ⟨.endValue, [.objVal], false, raw, key, f, te⟩ 0x7D = ⟨.endTop, [], true, raw, key, f, te⟩ := by
+  simp [step, St.endValue, St.pop, isSpace]
+
+theorem step_openObj : step {} 0x7B = ⟨.beginStringOrEmpty, [.objKey], false, [], [], {}, false⟩ := by
+  simp [step, St.beginValue, St.noteValueStart, isSpace, maxNestingDepth]
+
+theorem scan_member {lx : Lex} (hlx : lx = .beginString ∨ lx = .beginStringOrEmpty) (raw key : Bytes)
+    (f : Fields) (te : Bool) (name v : Bytes) (hn : ∀ c ∈ name, isPlain c = true) :
+    scan ⟨lx, [.objKey], false, raw, key, f, te⟩ (member name v) =
+      ⟨.endValue, [.objVal], false, escape v, unquote name, f.set (unquote name) (unquote (escape v)), te⟩ := by
+  unfold member quote
+  rw [scan_cons, step_openKey hlx, scan_append, scan_lit (Lit.of_plain hn), scan_cons, step_closeKey,
+    scan_cons, step_colon, scan_cons, step_openVal, scan_append, scan_lit (lit_escape v), scan_cons,
+    step_closeVal, scan_nil]
+  simp
+
+theorem allPre_member {lx : Lex} (hlx : lx = .beginString ∨ lx = .beginStringOrEmpty) (raw key : Bytes)
+    (f : Fields) (te : Bool) (name v : Bytes) (hn : ∀ c ∈ name, isPlain c = true) :
+    AllPre ⟨lx, [.objKey], false, raw, key, f, te⟩ (member name v) := by
+  unfold member quote
+  refine allPre_cons (incomplete_openKey hlx _ _ _ _) ?_
+  rw [step_openKey hlx]
+  refine allPre_append (allPre_lit (Lit.of_plain hn) _ _ _ _ _) ?_
+  rw [scan_lit (Lit.of_plain hn)]
+  refine allPre_cons (inString_incomplete ⟨.inl rfl, rfl⟩) ?_
+  rw [step_closeKey]
+  refine allPre_cons (by simp [St.complete, step, St.endValue, isSpace]) ?_
+  rw [step_colon]
+  refine allPre_cons (by simp [St.complete, step, isSpace]) ?_
+  rw [step_openVal]
+  refine allPre_append (allPre_lit (lit_escape v) _ _ _ _ _) ?_
+  rw [scan_lit (lit_escape v)]
+  refine allPre_cons (inString_incomplete ⟨.inl rfl, rfl⟩) ?_
+  rw [step_closeVal]
+  exact allPre_nil (by simp [St.complete, step, St.endValue, isSpace])
+
+/-! ### the whole file -/
+
+theorem plain_kKey : ∀ c ∈ kKey, isPlain c = true := by decide
+theorem plain_kHash : ∀ c ∈ kHash, isPlain c = true := by decide
+theorem plain_kSalt : ∀ c ∈ kSalt, isPlain c = true := by decide
+theorem plain_kHostname : ∀ c ∈ kHostname, isPlain c = true := by decide
+
+theorem unquote_kKey : unquote kKey = kKey := by decide
+theorem unquote_kHash : unquote kHash = kHash := by decide
+theorem unquote_kSalt : unquote kSalt = kSalt := by decide
+theorem unquote_kHostname : unquote kHostname = kHostname := by decide
+
+theorem set_kKey (f : Fields) (v : Bytes) : f.set kKey v = { f with key := v } := by
+  have : fieldOf kKey = some .key := by decide
+  simp [Fields.set, this]
+theorem set_kHash (f : Fields) (v : Bytes) : f.set kHash v = { f with hash := v } := by
+  have : fieldOf kHash = some .hash := by decide
+  simp [Fields.set, this]
+theorem set_kSalt (f : Fields) (v : Bytes) : f.set kSalt v = { f with salt := v } := by
+  have : fieldOf kSalt = some .salt := by decide
+  simp [Fields.set, this]
+theorem set_kHostname (f : Fields) (v : Bytes) : f.set kHostname v = { f with hostname := v } := by
+  have : fieldOf kHostname = some .hostname := by decide
+  simp [Fields.set, this]
+
+/-- the fields `json.Unmarshal` stores when it reads what `json.Marshal` wrote -/
+def reread (f : Fields) : Fields :=
+  { key := unquote (escape f.key), hash := unquote (escape f.hash), salt := unquote (escape f.salt),
+    hostname := unquote (escape f.hostname) }
+
+/-- everything `json.Marshal` writes before the closing brace -/
+def marshalOpen (f : Fields) : Bytes :=
+  0x7B :: (member kKey f.key ++ 0x2C :: (member kHash f.hash ++ 0x2C :: (member kSalt f.salt ++
+    0x2C :: member kHostname f.hostname)))
+
+theorem marshal_eq (f : Fields) : marshal f = marshalOpen f ++ [0x7D] := by
+  simp [marshal, marshalOpen]
+
+theorem scan_marshalOpen (f : Fields) :
+    scan {} (marshalOpen f) =
+      ⟨.endValue, [.objVal], false, escape f.hostname, kHostname, reread f, false⟩ := by
+  unfold marshalOpen
+  rw [scan_cons, step_openObj, scan_append, scan_member (.inr rfl) _ _ _ _ _ _ plain_kKey, scan_cons,
+    step_comma, scan_append, scan_member (.inl rfl) _ _ _ _ _ _ plain_kHash, scan_cons, step_comma,
+    scan_append, scan_member (.inl rfl) _ _ _ _ _ _ plain_kSalt, scan_cons, step_comma,
+    scan_member (.inl rfl) _ _ _ _ _ _ plain_kHostname]
+  simp only [unquote_kKey, unquote_kHash, unquote_kSalt, unquote_kHostname, set_kKey, set_kHash, set_kSalt,
+    set_kHostname, reread]
+
+theorem allPre_marshalOpen (f : Fields) : AllPre {} (marshalOpen f) := by
+  unfold marshalOpen
+  refine allPre_cons (by decide) ?_
+  rw [step_openObj]
+  refine allPre_append (allPre_member (.inr rfl) _ _ _ _ _ _ plain_kKey) ?_
+  rw [scan_member (.inr rfl) _ _ _ _ _ _ plain_kKey]
+  refine allPre_cons (by simp [St.complete, step, St.endValue, isSpace]) ?_
+  rw [step_comma]
+  refine allPre_append (allPre_member (.inl rfl) _ _ _ _ _ _ plain_kHash) ?_
+  rw [scan_member (.inl rfl) _ _ _ _ _ _ plain_kHash]
+  refine allPre_cons (by simp [St.complete, step, St.endValue, isSpace]) ?_
+  rw [step_comma]
+  refine allPre_append (allPre_member (.inl rfl) _ _ _ _ _ _ plain_kSalt) ?_
+  rw [scan_member (.inl rfl) _ _ _ _ _ _ plain_kSalt]
+  refine allPre_cons (by simp [St.complete, step, St.endValue, isSpace]) ?_
+  rw [step_comma]
+  exact allPre_member (.inl rfl) _ _ _ _ _ _ plain_kHostname
+
+/-- `json.Unmarshal` of what `json.Marshal` wrote -/
+theorem unmarshal_marshal (f : Fields) : unmarshal (marshal f) = .ok (reread f) := by
+  unfold unmarshal
+  rw [marshal_eq, scan_append, scan_marshalOpen, scan_cons, step_closeObj, scan_nil]
+  simp [St.complete]
+
+/-- every strict prefix of what `json.Marshal` wrote is a syntax error -/
+theorem unmarshal_prefix (f : Fields) (p : Bytes) (hp : p <+: marshal f) (hne : p ≠ marshal f) :
+    unmarshal p = .error .syntax := by
+  have hpre : p <+: marshalOpen f := by
+    rw [marshal_eq] at hp hne
+    rcases prefix_append_cases hp with h | ⟨q, rfl, hq⟩
+    · exact h
+    · rcases List.prefix_cons_iff.mp hq with rfl | ⟨t, rfl, ht⟩
+      · simp
+      · have : t = [] := by simpa using ht
+        subst this; exact absurd rfl hne
+  unfold unmarshal
+  simp [allPre_marshalOpen f p hpre]
+
 end Mtv.Session
